@@ -1470,6 +1470,12 @@ fn main() {
                 println!("VIOLATION {}: {}", v.kind, v.detail);
             }
         }
+        "glyphs" => {
+            let v: Vec<String> = glyph_pool().iter().map(|(c, _)| (*c as u32).to_string()).collect();
+            println!("[{}]", v.join("; "));
+            let v: Vec<String> = glyph_pool().iter().map(|(c, n)| format!("{c}={n}")).collect();
+            println!("{}", v.join(" "));
+        }
         "search" => search(n, seed),
         "vtie" => vtie(n, seed),
         "ctie" => ctie(n, seed),
@@ -1718,6 +1724,28 @@ fn vtie(n: usize, seed: u64) {
         }
     }
     println!("{{\"summary\":true,\"emitted\":{emitted},\"both_fail_to_compile\":{both_fail},\"iff_broken\":{iff_broken},\"unchanged_by_format\":{same_text},\"too_big\":{too_big},\"unparseable\":{unparse}}}");
+}
+
+/// function (non-modifier) primitives with a glyph that the lexer reads as a single-character token
+fn glyph_pool() -> Vec<(char, &'static str)> {
+    let mut v = Vec::new();
+    for p in Primitive::all() {
+        let Some(g) = p.glyph() else { continue };
+        if p.modifier_args().is_some() || g.is_alphabetic() || g.is_alphanumeric() {
+            continue;
+        }
+        if g.is_ascii() && !"+-:".contains(g) {
+            continue;
+        }
+        if "¯=?!‼←↚‥≁≈↓⟨⟩┌└′″‴₋ₙ⌞⌟∞◫◰𝄐∶⮌¨𝄈⍛∈⨂".contains(g) || uiua::SUBSCRIPT_DIGITS.contains(&g) {
+            continue;
+        }
+        if matches!(p, Primitive::Sys(_)) {
+            continue;
+        }
+        v.push((g, p.name()));
+    }
+    v
 }
 
 fn ctie(_n: usize, _seed: u64) {
